@@ -36,6 +36,7 @@ const (
 	belongsTo relKind = "belongs_to"
 	many2many relKind = "many2many"
 	polyMany  relKind = "polymorphic"
+	polyOne   relKind = "polymorphic_has_one"
 )
 
 type rel struct {
@@ -91,7 +92,7 @@ type world struct {
 
 var fieldOf = map[string]string{
 	"u": "U", "v": "V", "a": "A", "b": "B", "boss_a": "BossA", "boss_b": "BossB", "own_a": "OwnA", "own_b": "OwnB",
-	"node_a": "NodeA", "node_b": "NodeB", "ta": "TA", "tb": "TB", "owner_id": "OwnerID", "owner_type": "OwnerType",
+	"node_a": "NodeA", "node_b": "NodeB", "ta": "TA", "tb": "TB", "owner_id": "OwnerID", "owner_type": "OwnerType", "n": "N",
 }
 
 func mkModel(v interface{}, soft bool, cols ...string) *model {
@@ -134,10 +135,10 @@ func mkWorld(name string, kinds []kind, node, item, card, tag, pic interface{}) 
 	own := suffixed("own_", n)
 	nodeFK := suffixed("node_", n)
 	tkey := suffixed("t", n)
-	w.node = mkModel(node, true, append(append([]string{"u"}, key...), append([]string{"v"}, boss...)...)...)
-	w.item = mkModel(item, true, append(append([]string{"u"}, own...), "v")...)
-	w.card = mkModel(card, true, append(append([]string{"u"}, nodeFK...), "v")...)
-	w.tag = mkModel(tag, true, append(append([]string{"u"}, tkey...), "v")...)
+	w.node = mkModel(node, true, append(append(append([]string{"u"}, key...), append([]string{"v"}, boss...)...), "n")...)
+	w.item = mkModel(item, true, append(append([]string{"u"}, own...), "v", "n")...)
+	w.card = mkModel(card, true, append(append([]string{"u"}, nodeFK...), "v", "n")...)
+	w.tag = mkModel(tag, true, append(append([]string{"u"}, tkey...), "v", "n")...)
 	w.models = []*model{w.node, w.item, w.card, w.tag}
 	w.values = []interface{}{node, item, card, tag}
 	w.joinTable = strings.ToLower(name) + "_node_tags"
@@ -154,11 +155,13 @@ func mkWorld(name string, kinds []kind, node, item, card, tag, pic interface{}) 
 		{name: "Owner", kind: belongsTo, owner: w.item, target: w.node, ownerCols: own, targetCols: key, single: true},
 	}
 	if pic != nil {
-		w.pic = mkModel(pic, false, "u", "owner_id", "owner_type", "v")
+		w.pic = mkModel(pic, false, "u", "owner_id", "owner_type", "v", "n")
 		w.models = append(w.models, w.pic)
 		w.values = append(w.values, pic)
 		w.node.rels = append(w.node.rels, &rel{name: "Pics", kind: polyMany, owner: w.node, target: w.pic,
-			ownerCols: key, targetCols: []string{"owner_id"}, polyCol: "owner_type", polyVal: "node"})
+			ownerCols: key, targetCols: []string{"owner_id"}, polyCol: "owner_type", polyVal: "node"},
+			&rel{name: "Logo", kind: polyOne, owner: w.node, target: w.pic,
+				ownerCols: key, targetCols: []string{"owner_id"}, polyCol: "owner_type", polyVal: "logo", single: true})
 	}
 	return w
 }
